@@ -435,6 +435,18 @@ def search(ctx):
                     or any(not ca.is_equal(v1[k], v2[k]) for k in v1 if k in v2) or any(not ca.is_equal(v1[k], own[k]) for k in v1 if k in own):
                 report("s2c:symbols-dict", "two conversions sharing the caller's symbol dict do not share their variables",
                        {"exprs": [sympy.srepr(e1), sympy.srepr(e2)], "dict_after": sorted(own)})
+            # symbols that are NOT plain Symbols (Dummy / Wild): distinct objects with one printed name.  Either an error, or one variable each.
+            da, db = sympy.Dummy("x"), sympy.Dummy("x")
+            for e_d, nsym in ((da - 2 * db, 2), (da * xs[0] + sympy.Symbol("_x"), 3), (sympy.Wild("w") + sympy.Wild("w", exclude=[xs[0]]) * 3, 2)):
+                try:
+                    c_d, tab_d = symb.sympy_to_casadi(e_d, symbols={})
+                except Exception:   # noqa: BLE001  (rejected: fine)
+                    st["s2c_rejected"] += 1
+                    continue
+                nv = len(ca.symvar(ca.SX(c_d)))
+                if nv != nsym:
+                    report("s2c:symbols-merged", "distinct SymPy symbols (Dummy / Wild with one printed name) were accepted and mapped to the same CasADi variable",
+                           {"expr": sympy.srepr(e_d), "distinct_symbols": nsym, "casadi_variables": nv, "table": sorted(map(str, tab_d))})
             u_ = e1 + e2
             e3 = (u_) ** 2 + sympy.sin(u_) * sympy.cos(sympy.sin(u_)) + sympy.sin(u_) ** 2     # nested common sub-expressions
             c3, tab3 = symb.sympy_to_casadi(e3, f_dict={"foo": impl_ca["foo"]}, symbols={}, cse=True)
